@@ -345,3 +345,80 @@ Definition params_ok (p : params) : bool :=
   && (p_cov_num p =? 9) && (p_cov_den p =? 10) && (p_tcov_num p =? 9) && (p_tcov_den p =? 10)
   && forallb (fun f => same_checks (p_baseline_seq p f) (canonical_baseline f)) all_families
   && forallb (fun f => same_checks (p_reporting_seq p f) (canonical_reporting f)) all_families.
+
+(* ---------------- the statement, declaratively (used by Properties/C10.v) ----------------
+   "the set of disqualifications they report is exactly the set of criteria the data violates: baseline span outside
+   329-365 days, under 90% of days with valid usage, valid temperature or both (counting each timestamp's period up to
+   the next timestamp), any calendar month under 90% temperature (and, hourly, usage/irradiance) coverage, negative
+   usage for non-electric baselines, no data at all." *)
+
+(* whole days with ..., counting each timestamp's period up to the next timestamp *)
+Definition whole_days (v : row -> bool) (rows : list row) : Z := to_days (valid_secs v rows).
+(* a day's temperature is valid when more than 90 % of its readings are present *)
+Definition temp_valid90 (r : row) : bool :=
+  match r_cov r with Some (a, b) => 9 * (a + b) <? 10 * a | None => false end.
+Definition usage_present (r : row) : bool := is_some (r_obs r).
+
+(* span: whole days between the first and the last timestamp that carries data, + 1 *)
+Definition span_of (c : row -> bool) (rows : list row) : option Z :=
+  match map r_ts (filter c rows) with
+  | [] => None
+  | t :: l => Some ((fold_left Z.max l t - fold_left Z.min l t) / SECONDS_PER_DAY + 1)
+  end.
+
+Definition under90 (n : Z) (total : option Z) : Prop :=
+  match total with Some d => 10 * n < 9 * d | None => True end.
+
+Definition in_month (m : Z) (r : row) : bool := r_month r =? m.
+Definition month_under90 (present : row -> bool) (rows : list row) (m : Z) : Prop :=
+  10 * count_if present (filter (in_month m) rows) < 9 * Z.of_nat (length (filter (in_month m) rows)).
+Definition some_month_under90 (present : row -> bool) (rows : list row) : Prop :=
+  exists m, 1 <= m <= 12 /\ month_under90 present rows m.
+
+Definition has_data_baseline (fr : frame) (r : row) : bool := complete fr r.
+(* reporting data: usage is optional *)
+Definition has_data_reporting (fr : frame) (r : row) : bool :=
+  r_temp r && is_some (r_cov r) && (negb (f_has_ghi fr) || r_ghi r) && r_aux r.
+
+Definition violates_baseline (f : family) (electric : bool) (fr : frame) (n : dqname) : Prop :=
+  let rows := f_rows fr in
+  let span := span_of (has_data_baseline fr) rows in
+  match n with
+  | NoData => forall r, In r rows -> has_data_baseline fr r = false
+  | NegativeMeterValues => electric = false /\ exists r q, In r rows /\ r_obs r = Some q /\ (q < 0)%Q
+  | IncorrectNumberOfTotalDays => exists d, span = Some d /\ (d < 329 \/ 365 < d)
+  | TooManyDaysMissingData => under90 (whole_days (fun r => usage_present r && temp_valid90 r) rows) span
+  | TooManyDaysMissingMeter => under90 (whole_days usage_present rows) span
+  | TooManyDaysMissingTemperature => under90 (whole_days temp_valid90 rows) span
+  | MissingMonthlyTemperature => some_month_under90 r_temp rows
+  | MissingMonthlyMeter => f = Hourly /\ some_month_under90 usage_present rows
+  | MissingMonthlyGhi => f = Hourly /\ f_has_ghi fr = true /\ some_month_under90 r_ghi rows
+  | OffcycleReads => False
+  end.
+
+Definition violates_reporting (f : family) (fr : frame) (n : dqname) : Prop :=
+  let rows := f_rows fr in
+  let span := span_of (has_data_reporting fr) rows in
+  match n with
+  | NoData => forall r, In r rows -> has_data_reporting fr r = false
+  | TooManyDaysMissingData => under90 (whole_days temp_valid90 rows) span
+  | TooManyDaysMissingTemperature => under90 (whole_days temp_valid90 rows) span
+  | MissingMonthlyTemperature => some_month_under90 r_temp rows
+  | MissingMonthlyGhi => f = Hourly /\ f_has_ghi fr = true /\ some_month_under90 r_ghi rows
+  | _ => False
+  end.
+
+(* the usage column of reporting data is absent or complete (otherwise the code measures the span over the rows that
+   have usage - recorded finding) *)
+Definition usage_irrelevant (fr : frame) : Prop :=
+  f_has_obs fr = false \/ forall r, In r (f_rows fr) -> is_some (r_obs r) = true.
+
+(* rows that differ only in the magnitude of the usage value *)
+Definition same_shape (r r' : row) : Prop :=
+  r_ts r = r_ts r' /\ r_month r = r_month r' /\ r_temp r = r_temp r' /\ r_cov r = r_cov r' /\ r_ghi r = r_ghi r'
+  /\ r_aux r = r_aux r'
+  /\ match r_obs r, r_obs r' with
+     | None, None => True
+     | Some q, Some q' => (q < 0 <-> q' < 0)%Q
+     | _, _ => False
+     end.
